@@ -7,10 +7,12 @@ import json
 
 from . import core
 
-NE = [3.0e19, 1.5e19, 6.0e19]
-TE = [120.0, 35.0, 410.0]
-ND = [1.5e19, 3.0e18, 1.2e20]
-NEL = [2.5e17, 1.0e17, 4.0e17]
+PROFILES = {
+    "distinct": ([3.0e19, 1.5e19, 6.0e19], [120.0, 35.0, 410.0], [1.5e19, 3.0e18, 1.2e20], [2.5e17, 1.0e17, 4.0e17]),
+    # points 0 and 2 share (n_e, T_e, n_D) and differ in the density of the other species only
+    "repeated_plasma": ([3.0e19, 1.5e19, 3.0e19], [120.0, 35.0, 120.0], [1.5e19, 3.0e18, 1.5e19], [2.5e17, 1.0e17, 9.0e17]),
+}
+NE, TE, ND, NEL = PROFILES["distinct"]
 UNIT = 1e-14
 
 
@@ -60,6 +62,7 @@ def replay(rec, ctx):
     from cherab.tools.plasmas import ionisation_balance as IB
     ad = _mock()
     calls = rec["calls"]
+    NE, TE, ND, NEL = PROFILES[rec.get("profile", "distinct")]
     # the caller's profile arrays, created once and handed to every call
     ne, te, nd, nel = np.array(NE), np.array(TE), np.array(ND), np.array(NEL)
     fv = np.array([0.0, 1.0, 2.0])
@@ -70,7 +73,7 @@ def replay(rec, ctx):
         prev = " after " + ", ".join(f"{x['entry']}[{x['rep']}]" for x in calls[:i]) if i else ""
 
         def bad(what, detail):
-            viol.append({"sig": f"session:{name}:{what}", "detail": f"{detail} | call {i + 1} of {json.dumps(calls)[:400]}"})
+            viol.append({"sig": f"session:{name}:{what}", "detail": f"{detail} | profiles {rec.get('profile')} | call {i + 1} of {json.dumps(calls)[:400]}"})
         try:
             if c["rep"] == "ndarray":
                 got = [_vec(_call(IB, E, ad, c, ne, te, nd, nel), k) for k in range(3)]
@@ -118,16 +121,14 @@ def run_part(v):
     for r, vs in zip(seqs, out):
         for x in vs:
             v.violation(x["sig"], x["detail"], dict(r, part="session"))
-    v.add_cases(len(seqs), keys=[json.dumps(r["calls"]) for r in seqs])
+    v.add_cases(len(seqs), keys=[json.dumps([r["profile"], r["calls"]]) for r in seqs])
     v.notes["session_call_sequences"] = len(seqs)
 
 
 def selftest():
-    global ND
     c = [{"entry": "fractional_abundance", "element": "helium", "rep": "ndarray", "donor": "shared"}]
     good = replay({"calls": c}, None)
     # binding: if the reference inputs differ from what the call was given, the comparison must notice
-    keep = ND
     import numpy as np
     from cherab.tools.plasmas import ionisation_balance as IB
     orig = IB.fractional_abundance
@@ -141,5 +142,4 @@ def selftest():
         bad = replay({"calls": c}, None)
     finally:
         IB.fractional_abundance = orig
-        ND = keep
     return not good and bool(bad)
